@@ -125,6 +125,46 @@ def nesting_pairs(prog):
     return out
 
 
+def import_chain_cases(acc, probe, rng, count):
+    """Files that import files that import files (specific names, aliases, `*`, `* as`): the project must assemble to the bytes
+    of the same code written into one file (an import means the imported file's code at the import site, in a scope)."""
+    from . import c15
+    for _ in range(count):
+        files, _sites, info = c15.chain_project(rng)
+        lib, mid = files["lib.asm"], files["mid.asm"]
+        mid_body = mid.split("\n", 1)[1]
+        imp = mid.split("\n", 1)[0]
+        m = re.match(r'\.import (\w+)(?: as (\w+))?, (\w+) from', imp)
+        name, alias = m.group(1), m.group(2)
+        if alias:
+            mid_body = re.sub(r"\b%s\b" % alias, name, mid_body)
+        flat = lib + mid_body
+        call_fix = lambda t: re.sub(r"\b(run|m\.go)\b", "go", t)
+        if "top.asm" in files:
+            flat += call_fix(files["top.asm"].split("\n", 1)[1])
+        flat += call_fix(files["main.asm"].split("\n", 1)[1])
+        acc.evaluations += 1
+        r0 = probe.ask({"files": files, "ops": OPS, "opts": {"pc": 0x2000}})
+        r1 = probe.ask({"files": {"main.asm": flat}, "ops": OPS, "opts": {"pc": 0x2000}})
+        o0, o1 = outcome(r0), outcome(r1)
+        w = {"kinds": ["import-chain"], "P": files, "expanded": {"main.asm": flat}, "base_pc": 0x2000, "chain": info}
+        if o1[0] != "ok":
+            acc.inconc("flattened import chain does not assemble: %r" % (o1[1],))
+            continue
+        if o0[0] != "ok":
+            acc.violation("P-rejected|import-chain|%s" % re.sub(r"[0-9]+", "N", str(o0[1][0] if o0[1] else o0[0]))[:40],
+                          "the import chain (%s) is rejected although the same code in one file assembles: %s" % (info, o0[1][:3] if o0[0] == "diags" else o0), w)
+            continue
+        b0 = b"".join(bytes.fromhex(v[1]) for v in o0[1].values())
+        b1 = b"".join(bytes.fromhex(v[1]) for v in o1[1].values())
+        if b0 != b1:
+            acc.violation("bytes-differ|import-chain", "import chain assembles to %s, the same code in one file to %s" % (b0.hex(), b1.hex()), w)
+            continue
+        acc.count("import_chains_equal")
+        acc.nontriv("chain", tuple(sorted(files.items())))
+        acc.cover("import_chain_shapes", "%s/alias=%s/levels=%d" % (info["how"], bool(info["alias"]), info["levels"]))
+
+
 def shard(idx, n, seed, tier, params):
     acc = Acc()
     probe = Probe()
@@ -132,6 +172,7 @@ def shard(idx, n, seed, tier, params):
     t_end = time.time() + params["budget"]
     if idx == 0:
         check_witnesses(acc, probe)
+    import_chain_cases(acc, probe, rng, 8 if tier == "quick" else 200)
     for i in range(params["programs"] // n):
         if time.time() > t_end:
             acc.count("budget_cut")
@@ -164,8 +205,14 @@ def shard(idx, n, seed, tier, params):
                 if outcome(r1)[0] == "ok":
                     acc.evaluations += 1
                     tag = "+".join(sorted(kinds))
-                    loopy = "loop" in kinds and any("cannot redefine symbol" in m for m in o0[1])
-                    acc.violation("P-rejected|loop-label-rejected" if loopy else "P-rejected|%s|%s" % (tag, re.sub(r"[0-9]+", "N", str(o0[1][0]))[:40]),
+                    loops_expanded = "loop" in kinds or ("macro" in kinds and macro_call_in_loop(p0))
+                    if loops_expanded and any("cannot redefine symbol" in m for m in o0[1]):
+                        sig = "P-rejected|loop-label-rejected"
+                    elif loops_expanded and bil and blk_ref_in_loop(p0) and all("branch too far" in m for m in o0[1]):
+                        sig = "P-rejected|loop-scope-reuse"      # `bne +` of a later iteration reaches for the + of the first one
+                    else:
+                        sig = "P-rejected|%s|%s" % (tag, re.sub(r"[0-9]+", "N", str(o0[1][0]))[:40])
+                    acc.violation(sig,
                                   "expand(P) [%s] assembles, P does not: %s" % (tag, o0[1][:3]),
                                   {"kinds": kinds, "P": f0, "expanded": f1, "base_pc": p0.base_pc, "seed": pseed})
                 else:
